@@ -28,6 +28,10 @@ class Sem:
         assert num_mode in ('real', 'fp', 'opaque')
         self.int_mode, self.num_mode = int_mode, num_mode
         self.ob = None   # callback(name, goal_bool) for arithmetic-safety obligations
+        self.assume_cb = None
+        self.band_axioms = True
+        self.used_band = set()
+        self.bitsum = True      # symbolic & | ^ in math mode: sum over bits (True) or int2bv/bv2int (False)
 
     # -- sorts / constants -----------------------------------------------------
     def sort_of(self, ct):
@@ -198,9 +202,49 @@ class Sem:
             if m >= 0 and (m & (m + 1)) == 0:        # low mask
                 return a % (m + 1)
             if m > 0 and (m & (m - 1)) == 0:        # single bit
-                return ((a / m) % 2) * m
+                return z3.If(((a % (1 << ct.width)) / m) % 2 == 1, z3.IntVal(m), z3.IntVal(0))
         if op == '&' and z3.is_int_value(a):
             return self._math_bit(op, b, a, ct)
+        if op == '&' and ct.width <= 32 and self.band_axioms:
+            # symbolic a & b: an uninterpreted function constrained by facts that are proved once in bit-vector
+            # arithmetic (lemmas 'band/*' emitted by band_lemmas()); bit_k(x) is (x / 2^k) % 2 == 1
+            w = ct.width
+            ua, ub = a % (1 << w), b % (1 << w)
+            f = z3.Function('band%d' % w, z3.IntSort(), z3.IntSort(), z3.IntSort())
+            r = f(ua, ub)
+            self.used_band.add(w)
+            if self.assume_cb:
+                ba = [((ua / (1 << k)) % 2) == 1 for k in range(w)]
+                bb = [((ub / (1 << k)) % 2) == 1 for k in range(w)]
+                self.assume_cb(z3.And(r >= 0, r <= ua, r <= ub))
+                self.assume_cb((r == ub) == z3.And(*[z3.Implies(y, x) for x, y in zip(ba, bb)]))
+                self.assume_cb((r == 0) == z3.And(*[z3.Not(z3.And(x, y)) for x, y in zip(ba, bb)]))
+            if ct.signed:
+                return z3.If(r >= (1 << (w - 1)), r - (1 << w), r)
+            return r
+        if op in ('&', '|', '^') and ct.width <= 32 and self.bitsum:
+            # both operands symbolic: bit-wise sum over the two's-complement bits (linear integer arithmetic with
+            # div/mod by constants -- friendlier to the solver than int2bv/bv2int)
+            w = ct.width
+            ua, ub = a % (1 << w), b % (1 << w)
+            if self.assume_cb:
+                # binary expansion identity x == sum_k 2^k * bit_k(x) for 0 <= x < 2^w (arithmetic fact, trusted)
+                for u in (ua, ub):
+                    self.assume_cb(u == z3.Sum([((u / (1 << k)) % 2) * (1 << k) for k in range(w)]))
+            terms = []
+            for k in range(w):
+                x, y = (ua / (1 << k)) % 2, (ub / (1 << k)) % 2
+                if op == '&':
+                    bit = z3.If(z3.And(x == 1, y == 1), 1, 0)
+                elif op == '|':
+                    bit = z3.If(z3.Or(x == 1, y == 1), 1, 0)
+                else:
+                    bit = z3.If(x != y, 1, 0)
+                terms.append(bit * (1 << k))
+            r = z3.Sum(terms)
+            if ct.signed:
+                return z3.If(r >= (1 << (w - 1)), r - (1 << w), r)
+            return r
         # general case: go through bit-vectors
         w = ct.width
         x, y = z3.Int2BV(a, w), z3.Int2BV(b, w)
@@ -301,7 +345,10 @@ class Sem:
                 return z3.fpToSBV(z3.RTZ(), v, z3.BitVecSort(dst.width)) if dst.signed else z3.fpToUBV(z3.RTZ(), v, z3.BitVecSort(dst.width))
             r = z3.fpToReal(z3.fpRoundToIntegral(z3.RTZ(), v))
             return z3.ToInt(r)
-        f = z3.Function('opq_to_int', OpaqueNum, z3.IntSort())(v)
+        f = z3.Function('opq_to_' + dst.name.replace(' ', '_'), OpaqueNum, z3.IntSort())(v)
+        if self.int_mode != 'bv' and self.assume_cb:
+            # the converted value is representable in the destination type (anything else is undefined behaviour)
+            self.assume_cb(z3.And(f >= dst.lo, f <= dst.hi))
         return z3.Int2BV(f, dst.width) if self.int_mode == 'bv' else f
 
     def idx(self, v, ct):
@@ -318,3 +365,14 @@ class Sem:
 
     def idx_const(self, v):
         return z3.BitVecVal(v, 64) if self.int_mode == 'bv' else z3.IntVal(v)
+
+
+def band_lemmas(w=32):
+    """the facts assumed about band<w> in math mode, proved here over bit-vectors (returns [(name, z3 formula to refute)])."""
+    a, b = z3.BitVecs('a b', w)
+    r = a & b
+    sub = z3.And(*[z3.Implies(z3.Extract(k, k, b) == 1, z3.Extract(k, k, a) == 1) for k in range(w)])
+    dis = z3.And(*[z3.Not(z3.And(z3.Extract(k, k, a) == 1, z3.Extract(k, k, b) == 1)) for k in range(w)])
+    return [('band%d/bounded' % w, z3.Not(z3.And(z3.ULE(r, a), z3.ULE(r, b)))),
+            ('band%d/equals_b_iff_subset' % w, z3.Not((r == b) == sub)),
+            ('band%d/zero_iff_disjoint' % w, z3.Not((r == 0) == dis))]
